@@ -5,6 +5,9 @@ C16 — model of the C2PA Merkle tree variant
   sdk/src/utils/merkle.rs        C2PAMerkleTree::{from_leaves, generate_tree, to_layout,
                                  get_proof_by_index}
   sdk/src/assertions/bmff_hash.rs MerkleMap::{hash_check, check_merkle_tree}
+                                 BmffHash::{split_bmff_merkle_map, validate_merkle_maps_mdat_boxes
+                                 (UUID-box branch), verify_stream_hash (fragmented branch)}: the
+                                 loops that give every chunk its leaf index
 
 The model is generic over the node type `α` and the combining function
 `comb : α → α → α` (`concat_and_hash(alg, left, Some(right))` in the code).  Nothing in the
@@ -44,6 +47,14 @@ implementation's layer k (either order) named X,Y, or `X` when it equals a diges
      a trailing `via=asset` token marks a verdict obtained end to end through
      `BmffHash::verify_stream_hash` on a crafted BMFF stream (ignored by the model);
      row = `R<k>` (layer k) or a value list; proof = `none` | `-` | value list
+  mdats trees=<n>,<n>.. mm=<localId>:<tree>:<count>:<row>;.. chunks=<t>.<i>,..;.. boxes=<loc>:<proof>;..
+                                -> true|false   verdict of `BmffHash::verify_stream_hash` on a stream
+                                   with one mdat box per `mm` entry (UUID-box branch): tree `t` has the
+                                   leaf identities 1000*t+i; `chunks` gives, per mdat, the content at
+                                   every chunk position (`t.i` = the honest chunk i of mdat t); `boxes`
+                                   are the `merkle` uuid boxes in file order, proof = `none` | `-` |
+                                   `t.k.m+t.k.m..` (node m of layer k of tree t)
+  frags (same fields, one mm)   -> true|false   fragmented single-file branch
 -/
 namespace C2pa.C16
 
@@ -188,6 +199,95 @@ def checkMerkleTreePre [DecidableEq α] (comb : α → α → α) (count : Nat) 
       | none => false
     | none => hashCheck hashes (playEmptyPre layers hashes.length location) hash
 
+/-! ### which leaf index a chunk is checked at
+
+`location` and the proof `hashes` of a chunk come from its C2PA `merkle` uuid box
+(`BmffMerkleMap`), which no hash covers.  The validators walk the chunk positions
+(`for (range_index, range) in ranges.iter().enumerate()`, `for (index, boxes) in
+moof_chunks.iter().enumerate()`), hash chunk `i` and check it with the `i`-th box of the group.
+As repaired (fixes/C16-merkle-location-bound-to-chunk.patch) the box's `location` must be the
+position. -/
+
+/-- `BmffMerkleMap`, the content of one `merkle` uuid box (ids are not used by the validators) -/
+structure Box (α : Type) where
+  location : Nat
+  hashes : Option (List α)
+
+/-- the loop over the chunk positions; `chunks` are the `hash_stream_by_alg` digests of the ranges
+in stream order, `i` the position of the head.  `bmff_mm[range_index]` out of range cannot happen
+(the lengths are compared before the loop); the arm is `false`. -/
+def chunksGo [DecidableEq α] (comb : α → α → α) (count : Nat) (hashes : List α) :
+    Nat → List α → List (Box α) → Bool
+  | _, [], _ => true
+  | _, _ :: _, [] => false
+  | i, c :: cs, b :: bs =>
+    if b.location ≠ i then false
+    else if checkMerkleTree comb count hashes c b.location b.hashes then
+      chunksGo comb count hashes (i + 1) cs bs
+    else false
+
+/-- the same loop **before** the repair: the index is whatever the box says -/
+def chunksGoPre [DecidableEq α] (comb : α → α → α) (count : Nat) (hashes : List α) :
+    List α → List (Box α) → Bool
+  | [], _ => true
+  | _ :: _, [] => false
+  | c :: cs, b :: bs =>
+    if checkMerkleTree comb count hashes c b.location b.hashes then
+      chunksGoPre comb count hashes cs bs
+    else false
+
+/-- fragmented branch of `verify_stream_hash` for one `MerkleMap`:
+`moof_chunks.len() != mm.count || bmff_merkle.len() != mm.count` → HashMismatch, then the loop. -/
+def validateFragments [DecidableEq α] (comb : α → α → α) (count : Nat) (hashes : List α)
+    (chunks : List α) (boxes : List (Box α)) : Bool :=
+  if chunks.length ≠ count || boxes.length ≠ count then false
+  else chunksGo comb count hashes 0 chunks boxes
+
+/-- one `MerkleMap` (signed) together with the chunk digests of the mdat box it is zipped with -/
+structure Mdat (α : Type) where
+  localId : Nat
+  count : Nat
+  hashes : List α
+  chunks : List α
+
+/-- `HashMap::insert` on an association list -/
+def mapInsert {β : Type} (k : Nat) (v : β) (m : List (Nat × β)) : List (Nat × β) :=
+  (k, v) :: m.filter fun e => e.1 != k
+
+/-- `split_bmff_merkle_map`: the uuid boxes, in file order, are cut into runs of `count` boxes
+which are stored under the `local_id` of the MerkleMap; `none` = `Err(HashMismatch)`. -/
+def splitBoxes : List (Mdat α) → List (Box α) → List (Nat × List (Box α)) →
+    Option (List (Nat × List (Box α)))
+  | [], _, out => some out
+  | m :: ms, cur, out =>
+    if m.count > cur.length then none
+    else splitBoxes ms (cur.drop m.count) (mapInsert m.localId (cur.take m.count) out)
+
+/-- body of the loop over the MerkleMaps for one of them with its group of boxes -/
+def validateGroup [DecidableEq α] (comb : α → α → α) (m : Mdat α) (group : List (Box α)) : Bool :=
+  if m.chunks.length ≠ group.length then false
+  else chunksGo comb m.count m.hashes 0 m.chunks group
+
+def validateGroupPre [DecidableEq α] (comb : α → α → α) (m : Mdat α) (group : List (Box α)) :
+    Bool :=
+  if m.chunks.length ≠ group.length then false
+  else chunksGoPre comb m.count m.hashes m.chunks group
+
+/-- `validate_merkle_maps_mdat_boxes`, the branch taken when the stream has `merkle` uuid boxes
+(`false` = `Err(HashMismatch)`; every failure of this branch is a HashMismatch).  As repaired the
+group of a MerkleMap is the one stored under its `local_id` (before, the groups were taken in
+`HashMap::values()` order, which is arbitrary). -/
+def validateMdatsUuid [DecidableEq α] (comb : α → α → α) (mdats : List (Mdat α))
+    (boxes : List (Box α)) : Bool :=
+  match splitBoxes mdats boxes [] with
+  | none => false
+  | some groups =>
+    if mdats.length ≠ groups.length then false
+    else mdats.all fun m =>
+      match groups.lookup m.localId with
+      | some g => validateGroup comb m g
+      | none => false
+
 end generic
 
 /-- Digests as a free term algebra: distinct constructions give distinct digests. -/
@@ -259,6 +359,68 @@ def parseVal (t : Tree Dig) (s : String) : Option Dig :=
 def parseVals (t : Tree Dig) (s : String) : Option (List Dig) :=
   if s == "-" then some [] else (s.splitOn ",").mapM (parseVal t)
 
+
+/-! #### chunk placement ops -/
+
+def placeTree (t n : Nat) : Tree Dig :=
+  Tree.fromLeaves Dig.comb ((List.range n).map fun i => Dig.leaf (1000 * t + i))
+
+/-- `t.i` -> the honest chunk `i` of mdat `t` -/
+def parseChunk (s : String) : Option Dig :=
+  match s.splitOn "." with
+  | [t, i] => do
+    let t ← t.toNat?
+    let i ← i.toNat?
+    some (Dig.leaf (1000 * t + i))
+  | _ => none
+
+/-- `t.k.m` -> node `m` of layer `k` of tree `t` -/
+def parseNode (trees : List (Tree Dig)) (s : String) : Option Dig :=
+  match s.splitOn "." with
+  | [t, k, m] => do
+    let t ← t.toNat?
+    let k ← k.toNat?
+    let m ← m.toNat?
+    let tr ← trees[t]?
+    let l ← tr.layers[k]?
+    l[m]?
+  | _ => none
+
+def parseBox (trees : List (Tree Dig)) (s : String) : Option (Box Dig) :=
+  match s.splitOn ":" with
+  | [loc, pr] => do
+    let loc ← loc.toNat?
+    let hashes ←
+      if pr == "none" then some none
+      else if pr == "-" then some (some [])
+      else ((pr.splitOn "+").mapM (parseNode trees)).map some
+    some { location := loc, hashes := hashes }
+  | _ => none
+
+def parseMm (trees : List (Tree Dig)) (s chunks : String) : Option (Mdat Dig) :=
+  match s.splitOn ":" with
+  | [lid, t, count, row] => do
+    let lid ← lid.toNat?
+    let t ← t.toNat?
+    let count ← count.toNat?
+    let row ← row.toNat?
+    let tr ← trees[t]?
+    let hashes ← tr.layers[row]?
+    let cs ← (chunks.splitOn ",").mapM parseChunk
+    some { localId := lid, count := count, hashes := hashes, chunks := cs }
+  | _ => none
+
+def parsePlacement (toks : List String) : Option (List (Mdat Dig) × List (Box Dig)) := do
+  let ns ← ((field toks "trees").splitOn ",").mapM String.toNat?
+  let trees := (List.range ns.length).zipWith placeTree ns
+  let mms := (field toks "mm").splitOn ";"
+  let cgs := (field toks "chunks").splitOn ";"
+  if mms.length ≠ cgs.length then none
+  else
+    let mdats ← (mms.zip cgs).mapM fun p => parseMm trees p.1 p.2
+    let boxes ← ((field toks "boxes").splitOn ";").mapM (parseBox trees)
+    some (mdats, boxes)
+
 def handle (toks : List String) : String :=
   match toks with
   | "layout" :: rest => ",".intercalate ((layout (natField rest "n")).map toString)
@@ -302,6 +464,14 @@ def handle (toks : List String) : String :=
     match row, parseVal t (field rest "v") with
     | some row, some v => boolStr (hashCheck row (natField rest "idx") v)
     | _, _ => "bad-value"
+  | "mdats" :: rest =>
+    match parsePlacement rest with
+    | some (mdats, boxes) => boolStr (validateMdatsUuid Dig.comb mdats boxes)
+    | none => "bad-value"
+  | "frags" :: rest =>
+    match parsePlacement rest with
+    | some ([m], boxes) => boolStr (validateFragments Dig.comb m.count m.hashes m.chunks boxes)
+    | _ => "bad-value"
   | _ => "bad-op"
 
 end C2pa.C16
